@@ -493,6 +493,26 @@ Definition optZ_eqb (a b : option Z) : bool :=
         if isinstance(a, ast.Assert):      # an assert restating the guard it sits under is a no-op
             need(un(a.test) == "tubref not in self.tubConnectors" and starts[0].body.index(a) == 0,
                  "Tub.getBrokerForTubRef: unexpected assert")
+    # Tub.startService releases the lookups queued before the start: each relay must deliver to ITS OWN Deferred.
+    # The relays run in a later turn (fireEventually), so a callable created in the loop must not read the loop
+    # variables `d` / `sturdy` as free variables (late binding): they have to be bound per iteration (default
+    # argument) or passed as arguments.
+    ssd = P.find_def(pm, "Tub.startService")
+    qloops = [n for n in ssd.body if isinstance(n, ast.For) and un(n.iter) == "self._pending_getReferences"]
+    need(len(qloops) == 1 and isinstance(qloops[0].target, ast.Tuple) and all(isinstance(e, ast.Name) for e in qloops[0].target.elts),
+         "Tub.startService: the loop over the queued getReference calls changed")
+    loopvars = {e.id for e in qloops[0].target.elts} | {t.id for st in qloops[0].body if isinstance(st, ast.Assign)
+                                                        for t in st.targets if isinstance(t, ast.Name)}
+    for fn in ast.walk(qloops[0]):
+        if isinstance(fn, (ast.Lambda, ast.FunctionDef)):
+            bound = {a.arg for a in fn.args.args + fn.args.kwonlyargs} | ({fn.args.vararg.arg} if fn.args.vararg else set()) \
+                | ({fn.args.kwarg.arg} if fn.args.kwarg else set())
+            body = fn.body if isinstance(fn.body, list) else [fn.body]
+            free = {n.id for b in body for n in ast.walk(b) if isinstance(n, ast.Name) and isinstance(n.ctx, ast.Load)} - bound
+            need(not (free & loopvars), "Tub.startService: a callback created in the loop over the queued lookups reads the loop "
+                 "variable(s) %s late (free variable of a callable that runs in a later turn)" % sorted(free & loopvars))
+    need("self.getReference" in un(qloops[0]) and ".callback(" in un(qloops[0]),
+         "Tub.startService: queued lookups are no longer relayed through getReference to their Deferred")
     bdd = P.find_def(pm, "Tub.brokerDetached")
     loops = [n for n in bdd.body if isinstance(n, ast.For)]
     need(len(loops) == 1 and not loops[0].orelse and len(loops[0].body) == 1, "Tub.brokerDetached changed")
